@@ -4,4 +4,5 @@ package drivers
 var Registry = map[string]func(Args) error{
 	"codec": Codec,
 	"frame": Frame,
+	"stream": Stream,
 }
